@@ -225,7 +225,7 @@ def cmd_check(args) -> int:
         coverage=cov, assumptions=report.assumptions,
         wall_s=round(wall, 2), violations=len(new_violations))
     evdir = os.path.join(ROOT, 'evidence')
-    if os.path.realpath(REPO) != '/repo':
+    if os.path.realpath(REPO) != '/repo' or os.environ.get('VERIF_EVIDENCE_SCRATCH'):
         # runs against a scratch copy never overwrite the committed evidence
         evdir = os.path.join('/tmp', 'verif_scratch_evidence')
         os.makedirs(evdir, exist_ok=True)
